@@ -295,6 +295,23 @@ def R5_crossing(run):
                     g_init = True
         run.check("R5", "cross-only-at-tick", g_price, "liquidity is changed although the step did not end exactly at the next tick's price", loc=sw.loc(), detail="next_price == next_tick_sqrt_price")
         run.check("R5", "cross-only-initialized", g_init, "liquidity is changed when crossing an uninitialised tick", loc=sw.loc(), detail="next_tick_initialized")
+        # ... and on nothing else: once the step is computed, exactly those two tests decide whether the tick is crossed (a crossing
+        # made to depend on, say, the amount left would leave a tick reached with an exhausted amount uncrossed)
+        cs_ = calls_to(sw, ends("swap_math::compute_swap"), ctx={}, cut=True)
+        if len(cs_) == 1:
+            csb = cs_[0][0]
+            deciders = []
+            for at in A.atoms(sw, {}, cut=True):
+                if not cfg.dominates(sw, csb, at.block) or at.block == csb:
+                    continue
+                tr = set().union(*[cfg.reach(sw, b_, cut_blocks=[at.block, csb]) for b_ in at.true_targets]) if at.true_targets else set()
+                fr = set().union(*[cfg.reach(sw, b_, cut_blocks=[at.block, csb]) for b_ in at.false_targets]) if at.false_targets else set()
+                if (ub in tr) != (ub in fr):
+                    deciders.append(at)
+            run.check("R5", "cross-on-nothing-else", len(deciders) == 2, "whether the reached tick is crossed depends on %d tests after the step computation (%s); expected exactly two: "
+                      "the step ended at the tick's price, the tick is initialised" % (len(deciders), "; ".join(at.describe()[:70] for at in deciders)), loc=sw.loc(), detail="2 deciding tests")
+        else:
+            run.missing("R5", "cross-on-nothing-else", "swap() calls compute_swap %d times" % len(cs_), loc=sw.loc())
         # update_tick in the same guarded region with the computed update
         ut = calls_to(sw, ends("SwapTickSequence::<'a>::update_tick"), ctx={}, cut=True)
         ok = len(ut) == 1 and cfg.dominates(sw, ub, ut[0][0]) or (len(ut) == 1 and cfg.dominates(sw, ut[0][0], ub))
